@@ -6,6 +6,7 @@ package main
 // recover(), a per-call deadline and an allocation bound: monitor only, this is testing.
 
 import (
+	crand "crypto/rand"
 	"encoding/base64"
 	"encoding/json"
 	"fmt"
@@ -20,6 +21,7 @@ import (
 	spectypes "github.com/bloxapp/ssv-spec/types"
 	pubsub "github.com/libp2p/go-libp2p-pubsub"
 	pspb "github.com/libp2p/go-libp2p-pubsub/pb"
+	libp2pcrypto "github.com/libp2p/go-libp2p/core/crypto"
 
 	"github.com/bloxapp/ssv/message/validation"
 	"github.com/bloxapp/ssv/network/commons"
@@ -170,6 +172,14 @@ func decodeSeeds(u *universe, r *hx.Rand) map[string][][]byte {
 	sni := &records.SignedNodeInfo{NodeInfo: ni, HandshakeData: records.HandshakeData{SenderPeerID: "a", RecipientPeerID: "b", Timestamp: time.Unix(1700000000, 0), SenderPublicKey: []byte("pk")}, Signature: []byte{1, 2, 3}}
 	raw2, _ := sni.MarshalRecord()
 	add("signednodeinfo", raw2)
+	if priv, _, err := libp2pcrypto.GenerateEd25519Key(crand.Reader); err == nil {
+		if sealed, err := ni.Seal(priv); err == nil {
+			add("nodeinfo-sealed", sealed)
+		}
+		if sealed, err := sni.Seal(priv); err == nil {
+			add("signednodeinfo-sealed", sealed)
+		}
+	}
 	meta, _ := ni.Metadata.Encode()
 	add("metadata", meta)
 	for _, s := range []string{records.AllSubnets, records.ZeroSubnets, "0x" + records.AllSubnets, "00", "f", "", "ffffffffffffffffffffffffffffffffff", "0g", "FFfF"} {
@@ -181,7 +191,7 @@ func decodeSeeds(u *universe, r *hx.Rand) map[string][][]byte {
 var seedKindOf = map[string]string{
 	"DecodeSignedSSVMessage": "p2p", "DecodeNetworkMsg": "ssv", "DecodeSSVMessage-consensus": "cons",
 	"DecodeSSVMessage-partial": "part", "DecodeSSVMessage-event": "event", "NodeInfo.UnmarshalRecord": "nodeinfo",
-	"SignedNodeInfo.UnmarshalRecord": "signednodeinfo", "NodeInfo.Consume": "nodeinfo", "SignedNodeInfo.Consume": "signednodeinfo",
+	"SignedNodeInfo.UnmarshalRecord": "signednodeinfo", "NodeInfo.Consume": "nodeinfo-sealed", "SignedNodeInfo.Consume": "signednodeinfo-sealed",
 	"NodeMetadata.Decode": "metadata", "Subnets.FromString": "subnets", "validateP2PMessage": "p2p",
 	"validateP2PMessage-signed-era": "p2p", "ValidatePubsubMessage": "p2p",
 }
